@@ -515,7 +515,7 @@ def _nas_streams(ctx, cs):
         for c in ses_a:
             r = _call(n2p.upasetpv, nas, c)
             br = "upasetpv:" + (r[0] if r[0] != "ok" else "ok")
-            if r[0] == "ok" and known is not None:
+            if known is not None and c in known["upa"]:  # labelled by the input, not by the outcome
                 m = nas["maps"].get(c, [])
                 br = "upasetpv:" + ("maps" if len(m) else "upids" if known["kind"].get(c) == "seconct" else "direct")
             inp = {"nas": plain, "seup": c}
@@ -529,6 +529,7 @@ def _nas_streams(ctx, cs):
             inp = {"nas": plain, "sedn": s_}
             if known is not None and s_ in known["upq"]:
                 inp.update(expected=known["upq"][s_], style=known["style"])
+                br = "upqsetpv:" + ("some" if any(known["upq"][s_]) else "none")
             cs.add("upqsetpv" + tag, "upq %d | %s" % (s_, secs), _nas_reply(r, True), inp,
                    nontrivial=r[0] == "ok" and bool(np.any(r[1])), branch=br)
 
@@ -852,6 +853,8 @@ def correspondence(ctx):
     ctx.exhaustive = False  # exhaustive only over the finite set named in extra.exhaustive_set (thorough tier)
     if ctx.thorough:
         ctx.extra["exhaustive_note"] = "exhaustive: true for extra.exhaustive_set only"
+    if ctx.disagreements:
+        return  # the tie is broken already; branch labels taken from the implementation's outcome may be missing
     ctx.require_branches([
         "mask:key", "mask:combo", "mask:key-error",
         "mksetpv:ok", "mksetpv:proper-subset", "mksetpv:value-error", "mksetpv:key-error",
